@@ -40,7 +40,7 @@ Definition s_xy (I : impl) : sys := sys_run I P0 (mkSys [g0] (winit P0 g0)) ds_x
 Example hist_xy_ok : cscan P0 [g0] <> None /\ sys_ok repaired P0 (mkSys [g0] (winit P0 g0)) ds_xy.
 Proof.
   split; [vm_compute; discriminate|].
-  cbn [sys_ok ds_xy]. repeat split; vm_compute; try discriminate; auto.
+  apply sys_okb_ok. vm_compute. reflexivity.
 Qed.
 
 (* ... it ends on branch Y, holding outputs 1 (un-spent by the reorganisation) and 4 *)
@@ -69,7 +69,7 @@ Proof. vm_compute. split; reflexivity. Qed.
 Lemma pinned_hist_ok : cscan P0 [g0] <> None /\ sys_ok pinned P0 (mkSys [g0] (winit P0 g0)) ds_xy.
 Proof.
   split; [vm_compute; discriminate|].
-  cbn [sys_ok ds_xy]. repeat split; vm_compute; try discriminate; auto.
+  apply sys_okb_ok. vm_compute. reflexivity.
 Qed.
 
 Theorem pinned_refuted : ~ c24_statement pinned.
